@@ -48,7 +48,13 @@ type State struct {
 	esc     map[string]bool // fresh refs that were handed to code outside the function (may be aliased by later results)
 	from    *ssa.BasicBlock
 	lemmaIt int
+	// epochs: which "everything was havocked" event(s) the struct-field heap of this state descends
+	// from (empty: the entry heap). A field that is first mentioned after such a havoc must not read the
+	// entry heap H0: heapGet gives it the array of that epoch (one shared name per epoch and field).
+	epochs []epochAlt
 }
+
+type epochAlt struct{ sel, ep string }
 
 func newState() *State {
 	return &State{pc: "true", cells: map[*ssa.Alloc]Val{}, ghost: map[string]Val{}, globs: map[string]Val{}, fv: map[*ssa.FreeVar]Val{}, defers: map[*ssa.Defer]string{}, heap: map[string]string{}, mdom: map[string]string{}, mval: map[string]string{}, fresh: map[string]bool{}, esc: map[string]bool{}, hsf: map[string]string{}}
@@ -85,6 +91,7 @@ func (s *State) clone() *State {
 		n.hsf[k] = v
 	}
 	n.lemmaIt = s.lemmaIt
+	n.epochs = append([]epochAlt{}, s.epochs...)
 	n.hs = s.hs
 	n.from = s.from
 	n.refs = append([]string{}, s.refs...)
@@ -149,6 +156,9 @@ type Gen struct {
 	inlineSet  map[string]bool
 	depth      int
 	trustedUsed map[string]bool
+	sinkRefs    map[string]bool      // identities of byte sinks that exist at entry (io.Writer parameters)
+	clauseBound map[string]bool      // callpre/ghostset/observe clauses that matched at least one call
+	secReaders  map[string][3]string // *io.SectionReader term -> (ReaderAt identity, offset, length)
 	unmodelled  map[string]bool
 	sideFailed  bool
 	modelVars   []string
@@ -219,12 +229,40 @@ func (g *Gen) heapGet(st *State, key string) string {
 	if a, ok := st.heap[key]; ok {
 		return a
 	}
-	n := "|H0." + key + "|"
-	if _, ok := g.decls[n]; !ok {
-		g.decls[n] = g.heapSort[key]
-		g.declOrder = append(g.declOrder, n)
+	at := func(ep string) string {
+		n := "|H0." + key + "|"
+		if ep != "" {
+			n = "|H." + key + "@" + ep + "|"
+		}
+		if _, ok := g.decls[n]; !ok {
+			g.decls[n] = g.heapSort[key]
+			g.declOrder = append(g.declOrder, n)
+		}
+		return n
 	}
-	return n
+	if len(st.epochs) == 0 {
+		return at("")
+	}
+	e := at(st.epochs[len(st.epochs)-1].ep)
+	for i := len(st.epochs) - 2; i >= 0; i-- {
+		if t := at(st.epochs[i].ep); t != e {
+			e = fmt.Sprintf("(ite %s %s %s)", st.epochs[i].sel, t, e)
+		}
+	}
+	st.heap[key] = e
+	return e
+}
+
+func sameEpochs(a, b []epochAlt) bool {
+	if len(a) != len(b) {
+		return false
+	}
+	for i := range a {
+		if a[i] != b[i] {
+			return false
+		}
+	}
+	return true
 }
 
 func typeName(t types.Type) string {
@@ -488,7 +526,18 @@ func (g *Gen) symFor(t types.Type, name string, st *State) Val {
 		}
 		return Val{Kind: "map", Ref: r, T: r, Ty: t}
 	case *types.Interface:
-		return Val{T: g.newSym(name, "Int"), Kind: "err", Ty: t}
+		iv := g.newSym(name, "Int")
+		switch t.String() {
+		case "io.Writer", "io.ByteWriter", "io.StringWriter":
+			// a byte sink that exists already: objects allocated later are different from it, and so
+			// is every backing array (a sink's record in Hs is a model object, not Go memory)
+			st.refs = append(st.refs, iv)
+			if g.sinkRefs == nil {
+				g.sinkRefs = map[string]bool{}
+			}
+			g.sinkRefs[iv] = true
+		}
+		return Val{T: iv, Kind: "err", Ty: t}
 	case *types.Struct:
 		v := Val{Kind: "struct", Ty: t}
 		for i := 0; i < u.NumFields(); i++ {
@@ -715,6 +764,36 @@ func (g *Gen) merge(ins []*State) *State {
 	if len(ins) == 1 {
 		return ins[0]
 	}
+	// a pointer variable that holds the address of a local struct on one path and an ordinary pointer
+	// (parameter, callee result, nil) on another: the local is moved to the heap on its path first, so
+	// that both paths carry a reference (p = &T{} under `if p == nil`)
+	{
+		kinds := map[*ssa.Alloc]map[string]bool{}
+		for _, s := range ins {
+			for c, v := range s.cells {
+				if kinds[c] == nil {
+					kinds[c] = map[string]bool{}
+				}
+				k := v.Kind
+				if k == "ptr" && v.Cell == nil {
+					k = "ptr0"
+				}
+				kinds[c][k] = true
+			}
+		}
+		for _, s := range ins {
+			var cs []*ssa.Alloc
+			for c := range s.cells {
+				cs = append(cs, c)
+			}
+			sort.Slice(cs, func(i, j int) bool { return cs[i].Pos() < cs[j].Pos() })
+			for _, c := range cs {
+				if v := s.cells[c]; v.Kind == "ptr" && v.Cell != nil && (kinds[c]["opaque"] || kinds[c]["err"]) {
+					s.cells[c] = g.tryPromote(s, v)
+				}
+			}
+		}
+	}
 	out := newState()
 	var sel []string
 	for _, s := range ins {
@@ -864,6 +943,24 @@ func (g *Gen) merge(ins []*State) *State {
 		}
 	}
 	out.lemmaIt = ins[0].lemmaIt
+	same := true
+	for _, s := range ins[1:] {
+		if !sameEpochs(s.epochs, ins[0].epochs) {
+			same = false
+		}
+	}
+	if same {
+		out.epochs = append([]epochAlt{}, ins[0].epochs...)
+	} else {
+		for _, s := range ins {
+			if len(s.epochs) == 0 {
+				out.epochs = append(out.epochs, epochAlt{s.pc, ""})
+			}
+			for _, a := range s.epochs {
+				out.epochs = append(out.epochs, epochAlt{and(s.pc, a.sel), a.ep})
+			}
+		}
+	}
 	return out
 }
 
